@@ -240,7 +240,6 @@ structure JudgeSt where
   dloaded : Bool := false
   dhist : List (Event PKey) := []   -- dispatcher family, most recent first
   dskip : Bool := false             -- a request ran two throttling remedies: verdicts not attributable
-  badFid : String := "-"            -- finding class of `bad`, when it falls into one
 
 def parseAnswer (out : String) : Option Answer :=
   match (words out).filter (fun w => !w.startsWith "reads=") with
@@ -274,7 +273,6 @@ def judgeStep1 (s : JudgeSt) (op out : String) : JudgeSt :=
       -- remedies of the chain that may answer in the throttling remedy's place
       let fixedFires := ch.any (fun p => match p.kind with
         | .fixed _ => lookupHdr hs "early-response" == "true" | _ => false)
-      let hasCache := ch.any isCache
       let ans : Option DAns := match words out with
         | ["pass"] => some .pass
         | ["early", st, b] =>
@@ -284,7 +282,7 @@ def judgeStep1 (s : JudgeSt) (op out : String) : JudgeSt :=
       | _, none => { s with bad := s.bad <|> some s!"unparsable-answer:{pctEnc out}" }
       | [], some .pass => s
       | [], some _ =>
-        if fixedFires || hasCache then s
+        if fixedFires then s
         else { s with bad := s.bad <|> some s!"request-without-throttling-remedy-not-passed t={t} got={pctEnc out}" }
       | [(i, r)], some a =>
         let p : PReq := ⟨r, hs, t⟩
@@ -296,10 +294,7 @@ def judgeStep1 (s : JudgeSt) (op out : String) : JudgeSt :=
         match own with
         | some a' =>
           if !answerOk p a' then
-            -- (with a caching remedy in the chain: a cached rejection replayed to a request the configuration
-            --  lets pass or rejects otherwise — class of finding F09g)
-            { s with bad := s.bad <|> some s!"rejection-not-as-configured t={t} got={pctEnc out} want-status={effStatus r}",
-                     badFid := if s.bad.isNone && hasCache then (findingD s.dpols).getD "-" else s.badFid }
+            { s with bad := s.bad <|> some s!"rejection-not-as-configured t={t} got={pctEnc out} want-status={effStatus r}" }
           else match observe1P p a' with
             | some e =>
               -- per remedy AND endpoint as configured: the policy's position is part of the group identity
@@ -307,15 +302,9 @@ def judgeStep1 (s : JudgeSt) (op out : String) : JudgeSt :=
               { s with dhist := e' :: s.dhist }
             | none => s
         | none =>
-          -- another remedy of the chain answered (a fixed response, a cached response): the throttling verdict
-          -- of this request does not show; the case is then compared with the model only
-          let hasFixed := ch.any (fun p => match p.kind with | .fixed _ => true | _ => false)
-          if hasCache && !hasFixed then
-            -- nothing but throttling rejections can have been stored: a cached (possibly clobbered) rejection is
-            -- replayed to a request whose own verdict does not show — class of finding F09g
-            { s with bad := s.bad <|> some s!"cached-gateway-rejection-replayed t={t} got={pctEnc out}",
-                     badFid := if s.bad.isNone then (findingD s.dpols).getD "-" else s.badFid }
-          else if fixedFires || hasCache then { s with dskip := true }
+          -- another remedy of the chain answered (a fixed response): the throttling verdict of this request does
+          -- not show; the case is then compared with the model only
+          if fixedFires then { s with dskip := true }
           else { s with bad := s.bad <|> some s!"rejection-not-as-configured t={t} got={pctEnc out} want-status={effStatus r}" }
       | _, _ => { s with dskip := true }
     | _, _, _, _ => s
@@ -398,7 +387,7 @@ def judgeStep (s : JudgeSt) (op out : String) : JudgeSt :=
 
 def judgeFinish (s : JudgeSt) : String :=
   match s.bad with
-  | some b => s!"fail {s.badFid} {b}"
+  | some b => s!"fail - {b}"
   | none =>
     let hP := s.hist.reverse ++ (if s.dskip then [] else s.dhist.reverse)
     -- groups as the allocation table distinguishes them (theorem `plugin_spec_holds_groups`)
@@ -407,11 +396,9 @@ def judgeFinish (s : JudgeSt) : String :=
     else
       let keys := dedupKeys (h.map (·.key)) []
       let failing := keys.filter fun k => !holdsKeyRev capExact (keyHist k h)
-      -- plugin level: no open finding; dispatcher level (groups "<position>#<name>"): `findingD`
+      -- no finding of C09 is open: every failure is unexplained
       let pick := failing.head?
-      let fid := match pick with
-        | some k => if k.remedy.contains '#' then (findingD s.dpols).getD "-" else "-"
-        | none => "-"
+      let fid := "-"
       match pick with
       | none => s!"fail {fid} spec-violated"
       | some k =>
